@@ -53,10 +53,11 @@ type checker struct {
 	funs    map[string]*Type // top-level functions visible so far
 	topName map[string]bool
 	// per top-level function
-	inLet int             // > 0 inside the right-hand side of a let / destructuring let
-	bound map[string]bool // every binder of the current function (no shadowing)
-	uses  map[string]int
-	env   []binding
+	atBlock bool            // the expression about to be checked stands at block level (statement, let right-hand side, final expression)
+	inLet   int             // > 0 inside the right-hand side of a let / destructuring let
+	bound   map[string]bool // every binder of the current function (no shadowing)
+	uses    map[string]int
+	env     []binding
 }
 
 type binding struct {
@@ -303,7 +304,7 @@ func (c *checker) block(b *Block) *Type {
 	for _, s := range b.Stmts {
 		c.stmt(s)
 	}
-	t := c.expr(b.E)
+	t := c.blockExpr(b.E)
 	c.env = c.env[:mark]
 	return t
 }
@@ -312,7 +313,7 @@ func (c *checker) stmt(s *Stmt) {
 	switch s.K {
 	case SLet:
 		c.inLet++
-		t := c.expr(s.E)
+		t := c.blockExpr(s.E)
 		c.inLet--
 		if t.K == TUnit {
 			c.fail("let %s binds a unit value", s.Name)
@@ -364,7 +365,7 @@ func (c *checker) stmt(s *Stmt) {
 			c.bind(n, t.Elems[i])
 		}
 	case SDo:
-		if t := c.expr(s.E); t.K != TUnit {
+		if t := c.blockExpr(s.E); t.K != TUnit {
 			c.fail("(do E) with E : %s", t.Sexp())
 		}
 	}
@@ -373,9 +374,28 @@ func (c *checker) stmt(s *Stmt) {
 func isCmp(op string) bool { return op == "<" || op == ">" || op == "<=" || op == ">=" }
 
 func (c *checker) expr(e *Expr) *Type {
+	top := c.atBlock
+	c.atBlock = false
+	if c.opts.Tiny && !top {
+		// tinyfo ends a block only by column, not at a closing parenthesis: a multi-line construct
+		// cannot stand inside an expression. A nested if must fit on one line; no nested match.
+		switch e.K {
+		case EMatchU, EIfOnly:
+			c.fail("tiny: %s nested in an expression", e.K)
+		case EIf:
+			if len(e.Blocks[0].Stmts) > 0 || len(e.Blocks[1].Stmts) > 0 {
+				c.fail("tiny: nested if with statements in a branch")
+			}
+		}
+	}
 	t := c.expr1(e)
 	e.T = t
 	return t
+}
+
+func (c *checker) blockExpr(e *Expr) *Type {
+	c.atBlock = true
+	return c.expr(e)
 }
 
 func (c *checker) want(e *Expr, t *Type, what string) {
@@ -681,6 +701,9 @@ func (c *checker) expr1(e *Expr) *Type {
 		}
 		return rt
 	case ESlice:
+		if c.opts.Tiny && len(e.Args) == 0 {
+			c.fail("tiny: no empty slice literal (slice.New<T> () is not in tinyfo)")
+		}
 		c.wfType(e.ElemT, true)
 		for _, a := range e.Args {
 			c.want(a, e.ElemT, "slice element")
